@@ -38,14 +38,15 @@ CountAttrs(nodes, n, k) == IF k <= Len(nodes) /\ nodes[k].k = "a" /\ nodes[k].d 
 Attrs(nodes, n) == CountAttrs(nodes, n, n + 1)             \* number of attributes of element n
 NextSibling(nodes, n) == LET k == Last(nodes, n) + 1 IN IF k <= Len(nodes) /\ nodes[k].d = nodes[n].d /\ nodes[k].k = "e" THEN k ELSE 0
 
-FaultKinds == {"del", "dup", "empty", "swap", "missing", "self", "other", "ancestor"}
+\* ("selfpad" / "ancestorpad": the same targets as "self" / "ancestor", written with white space around the name)
+FaultKinds == {"del", "dup", "empty", "swap", "missing", "self", "other", "ancestor", "selfpad", "ancestorpad"}
 FaultEnabled(nodes, f, n) ==
   /\ n >= 1 /\ n <= Len(nodes)
   /\ CASE f = "del" -> TRUE
        [] f = "dup" -> TRUE
        [] f = "empty" -> (nodes[n].k = "e" /\ Size(nodes, n) > 1 + Attrs(nodes, n)) \/ nodes[n].k = "a"
        [] f = "swap" -> nodes[n].k = "e" /\ NextSibling(nodes, n) # 0
-       [] f \in {"missing", "self", "other", "ancestor"} -> nodes[n].ref
+       [] f \in {"missing", "self", "other", "ancestor", "selfpad", "ancestorpad"} -> nodes[n].ref
        [] OTHER -> FALSE
 
 \* number of nodes of the document after the fault; 0 - 1 when the result is not well-formed XML
